@@ -171,6 +171,8 @@ var metaNames = []string{"Issuer", "ThisUpdate", "NextUpdate"}
 var metaFams = []int{famSeq, famTime, famTime}
 var extNames = []string{"CRLNumber"}
 var extFams = []int{famInt}
+var revNames = []string{"SerialNumber", "RevocationTime", "Extensions"}
+var revFams = []int{famInt, famTime, famSeq}
 
 func installSchemaASN1() {
 	schemaRecs = nil
@@ -187,6 +189,10 @@ func installSchemaASN1() {
 				[]bool{len(x.Issuer) == 0, false, false})
 		case crlreader.ExtendedCRLMetaInfo:
 			toks = schemaMarshal(schemaOf(x, extNames, extFams), extNames, []bool{x.CRLNumber == nil}, []bool{false})
+		case pkix.RevokedCertificate:
+			toks = schemaMarshal(schemaOf(x, revNames, revFams), revNames,
+				[]bool{x.SerialNumber == nil, x.RevocationTime.IsZero(), x.Extensions == nil},
+				[]bool{false, false, len(x.Extensions) == 0})
 		default:
 			verifrt.OutOfDate("asn1.Marshal of a record type the schema model does not know")
 			return nil, verifrt.NewError("unknown record")
@@ -252,6 +258,24 @@ func installSchemaASN1() {
 			if from[0] == 0 && src.CRLNumber != nil {
 				dst.CRLNumber = new(big.Int).Set(src.CRLNumber)
 			}
+		case *pkix.RevokedCertificate:
+			src, same := rec.val.(pkix.RevokedCertificate)
+			if !same {
+				return nil, verifrt.NewError("another record type")
+			}
+			from, ok := schemaUnmarshal(schemaOf(dst, revNames, revFams), revNames, rec.toks)
+			if !ok {
+				return nil, verifrt.NewError("asn1: structure error")
+			}
+			if from[0] == 0 && src.SerialNumber != nil {
+				dst.SerialNumber = new(big.Int).Set(src.SerialNumber)
+			}
+			if from[1] == 1 {
+				dst.RevocationTime = src.RevocationTime
+			}
+			if from[2] == 2 {
+				dst.Extensions = append([]pkix.Extension{}, src.Extensions...)
+			}
 		default:
 			verifrt.OutOfDate("asn1.Unmarshal into a record type the schema model does not know")
 			return nil, verifrt.NewError("unknown record")
@@ -267,7 +291,7 @@ func installSchemaASN1() {
 func VerifC18_Schema() {
 	installSchemaASN1()
 	ser := ASN1Serializer{}
-	switch verifrt.Choose(3) {
+	switch verifrt.Choose(4) {
 	case 0:
 		in := core.CRLLocations{CRLUrl: verifrt.NondetString("url"), CRLFile: verifrt.NondetString("file")}
 		switch verifrt.Choose(3) {
@@ -328,6 +352,26 @@ func VerifC18_Schema() {
 		verifrt.Assert((out.CRLNumber == nil) == (in.CRLNumber == nil), "an absent CRL number stays absent, a present one present")
 		if out.CRLNumber != nil && in.CRLNumber != nil {
 			verifrt.Assert(out.CRLNumber.Cmp(in.CRLNumber) == 0, "CRL number reads back equal")
+		}
+	case 3:
+		// an entry (standard-library struct, serialized by the repository's code): wide serial, date, with and without extensions
+		in := pkix.RevokedCertificate{SerialNumber: big.NewInt(verifrt.NondetInt64("serial")), RevocationTime: verifrt.TimeAt(verifrt.NondetInt64("revoked"))}
+		if verifrt.Choose(2) == 1 {
+			in.Extensions = []pkix.Extension{{Id: asn1.ObjectIdentifier{2, 5, 29, 21}, Critical: verifrt.NondetBool("crit"), Value: []byte{0x0a, 0x01, verifrt.NondetU8("reason")}}}
+		}
+		b, err := ser.SerializeRevokedCert(&in)
+		verifrt.Assert(err == nil, "an entry serializes")
+		out, err := ser.DeserializeRevokedCert(b)
+		verifrt.Reach("entry")
+		verifrt.Assert(err == nil && out != nil, "an entry written by the serializer reads back")
+		if err != nil || out == nil {
+			return
+		}
+		verifrt.Assert(out.SerialNumber != nil && out.SerialNumber.Cmp(in.SerialNumber) == 0, "the entry's serial reads back equal")
+		verifrt.Assert(out.RevocationTime.Equal(in.RevocationTime), "the entry's revocation date reads back equal")
+		verifrt.Assert(len(out.Extensions) == len(in.Extensions), "the entry's extensions read back: same number")
+		if len(out.Extensions) == 1 && len(in.Extensions) == 1 {
+			verifrt.Assert(out.Extensions[0].Critical == in.Extensions[0].Critical && out.Extensions[0].Id.Equal(in.Extensions[0].Id) && verifrt.BytesEqual(out.Extensions[0].Value, in.Extensions[0].Value), "the entry's extension reads back unchanged")
 		}
 	}
 }
